@@ -4,7 +4,7 @@
 # answer that the property theorems say must come out (property oracle on the real code).
 OPS = {
     "numenc": "corr", "numdec": "corr", "enc": "corr", "encinto": "corr", "dec": "corr",
-    "encspec": "oracle", "rtdec": "oracle", "rtenc": "oracle", "numlaws": "oracle", "cmplaws": "oracle", "containslaws": "oracle", "keyorder": "oracle",
+    "encspec": "oracle", "rtdec": "oracle", "rtenc": "oracle", "numlaws": "oracle", "cmplaws": "oracle", "containslaws": "oracle", "keyorder": "oracle", "tostrcheck": "oracle", "jpexpect": "oracle", "kpexpect": "oracle", "jproundtrip": "oracle", "kproundtrip": "oracle",
 }
 
 
